@@ -1779,7 +1779,8 @@ def camp_space(rnd, tier, which):
                     o = b.newb(kind, path, bits, n=n)
                     b.space(o)
                 # skewed densities for the select inventories
-                for dens in ([1] + [0] * 63, [0] + [1] * 63, [1] + [0] * 999):
+                # (gaps of 70-100: every group of 1024 is sparse, the explicit positions dominate the inventories)
+                for dens in ([1] + [0] * 63, [0] + [1] * 63, [1] + [0] * 999, [1] + [0] * 99, [0] + [1] * 99, [1] + [0] * 69):
                     sk = Seqn.from_runs([(dens, max(1, n // len(dens)))])
                     for kind in ("DA0", "DA1", "RSN", "RSW"):
                         o = b.newb(kind, "new", sk)
